@@ -1,8 +1,10 @@
 package props
 
 import (
+	"bytes"
 	"encoding/json"
 	"fmt"
+	"strings"
 	"testing"
 
 	"github.com/gregoryv/mq"
@@ -118,6 +120,11 @@ func mutateField(t *rapid.T, m *model.Packet, name string) {
 		}
 	case "SetReasonString":
 		m.ReasonString = str()
+		if !zero && rapid.IntRange(0, 4).Draw(t, "reasonfromcode") == 0 {
+			// a reason string that repeats, extends or paraphrases the name of
+			// the packet's own reason code, as servers like to send it
+			m.ReasonString = reasonLike(t, m.ReasonCode)
+		}
 	case "SetMaxQoS":
 		m.MaxQoS = rapid.SampledFrom([]uint8{0, 1, 2}).Draw(t, "v")
 	case "SetRetainAvailable":
@@ -163,6 +170,10 @@ func mutateField(t *rapid.T, m *model.Packet, name string) {
 		m.ContentType = str()
 	case "SetPayload":
 		m.Payload = bin()
+		if rapid.IntRange(0, 59).Draw(t, "hugepayload") == 0 {
+			// the remaining length moves into its 3- and 4-byte forms
+			m.Payload = bytes.Repeat([]byte{0x5a}, rapid.SampledFrom([]int{16384, 2097151, 2097152, 2097160}).Draw(t, "hugepayloadlen"))
+		}
 	case "AddSubscriptionID":
 		m.SubIDs = append(m.SubIDs, gen.SubID(t, "v"))
 	case "SetSubscriptionID":
@@ -238,6 +249,12 @@ func checkC12(c caseC12) (sig, msg string) {
 		// a fresh packet must already agree with the empty model
 		return "fresh:" + fieldOf(d), fmt.Sprintf("fresh %s differs from the empty model (got vs model): %s", typeName(c.Type), d)
 	}
+	// a second packet of the same type that is handed the very same slices
+	// as arguments of the binary setters (a retry built from the same
+	// credential, a copy of a message): what is set on p later is p's business
+	bystander := api.NewPacket(int(c.Type))
+	byWant := map[string][]byte{}
+	bytesSetters := map[string]string{"SetPassword": "Password", "SetAuthData": "AuthData", "SetCorrelationData": "CorrelationData", "SetPayload": "Payload"}
 	for i, st := range c.Steps {
 		s, ok := byName[st.Setter]
 		if !ok {
@@ -260,6 +277,19 @@ func checkC12(c caseC12) (sig, msg string) {
 		}
 		if pan := guard.Call(apply); pan != nil {
 			return "panic:" + st.Setter, fmt.Sprintf("step %d %s panicked: %v\n%s", i, st.Setter, pan.Value, pan.Stack)
+		}
+		if field, ok := bytesSetters[st.Setter]; ok && c.StartGob == "" {
+			if arg := api.LastBin; len(arg) > 0 && len(arg) <= 4096 {
+				guard.Call(func() { api.SetBytesField(bystander, field, arg) })
+				byWant[field] = append([]byte(nil), arg...)
+			}
+		}
+		for field, wantB := range byWant {
+			var gotB []byte
+			guard.Call(func() { gotB, _ = api.GetBytesField(bystander, field) })
+			if !bytes.Equal(gotB, wantB) {
+				return "bystander:" + field, fmt.Sprintf("a second %s was given the same slice as p for %s earlier; after step %d (%s on p) the second packet's %s() is %s, it was set to %s", typeName(c.Type), field, i, st.Setter, field, hx(gotB), hx(wantB))
+			}
 		}
 		if st.Probe > 0 {
 			if pan := guard.Call(func() { api.Probe(p, st.Probe) }); pan != nil {
@@ -430,5 +460,41 @@ func TestC12(t *testing.T) {
 				t.Fatalf("%s", msg)
 			}
 		})
+	}
+}
+
+// reasonLike draws a reason string related to the name of a reason code.
+func reasonLike(t *rapid.T, code uint8) string {
+	name := mq.ReasonCode(code).String()
+	if rapid.IntRange(0, 3).Draw(t, "othercode") == 0 {
+		name = mq.ReasonCode(gen.ReasonCode(t, "othercodev")).String()
+	}
+	spaced := make([]byte, 0, len(name)+8)
+	for i := 0; i < len(name); i++ {
+		if i > 0 && name[i] >= 'A' && name[i] <= 'Z' {
+			spaced = append(spaced, ' ')
+		}
+		spaced = append(spaced, name[i])
+	}
+	switch rapid.IntRange(0, 7).Draw(t, "reasonshape") {
+	case 0:
+		return name
+	case 1:
+		return name + ": client certificate expired"
+	case 2:
+		return string(spaced) + ", try again in 30s"
+	case 3:
+		return strings.ToLower(string(spaced)) + "!"
+	case 4:
+		return strings.ToUpper(name) + "_" + name
+	case 5:
+		if len(name) > 1 {
+			return name[:len(name)-1]
+		}
+		return name
+	case 6:
+		return name + name + name
+	default:
+		return string(spaced)
 	}
 }
